@@ -1480,7 +1480,14 @@ class Interp:
         return out
 
     def st_If(self, s, st):
-        cond = norm(s.test)
+        # the condition with single-assignment locals substituted: `n = len(xs) ... if n > 0` reads `len(xs) > 0`
+        from . import rules as _rules
+        if getattr(self, "_lenv", None) is None:
+            self._lenv = _rules.local_env(self.fi.node)
+        try:
+            cond = _rules.deep(s.test, self._lenv, tuple(self.fi.params))
+        except Exception:
+            cond = norm(s.test)
         cmps = self.cmp_events(s.test, st)
         self.ev(s.test, st)
         self.emit(st, "test", s, cond=cond, cmps=cmps)
